@@ -40,6 +40,9 @@ type Hello struct {
 	CipherSuites []byte `json:"cs"`
 	Compression  []byte `json:"cm"`
 	Exts         []Ext  `json:"x"`
+	// NoExtBlock: the hello ends after the compression methods, without an
+	// extensions block at all (legal before TLS 1.3: RFC 5246, 7.4.1.2).
+	NoExtBlock bool `json:"noext,omitempty"`
 }
 
 func (h *Hello) Clone() *Hello {
@@ -115,6 +118,10 @@ func ParseHelloBody(body []byte) (*Hello, []byte, error) {
 	if r.err {
 		return nil, nil, ErrSyntax
 	}
+	if len(r.b) == 0 {
+		h.NoExtBlock = true
+		return h, nil, nil
+	}
 	eb := r.take(r.u16())
 	if r.err {
 		return nil, nil, ErrSyntax
@@ -175,6 +182,9 @@ func (h *Hello) Body() []byte {
 	b = append(b, h.CipherSuites...)
 	b = append(b, byte(len(h.Compression)))
 	b = append(b, h.Compression...)
+	if h.NoExtBlock && len(h.Exts) == 0 {
+		return b
+	}
 	eb := MarshalExts(h.Exts)
 	b = binary.BigEndian.AppendUint16(b, uint16(len(eb)))
 	b = append(b, eb...)
